@@ -80,6 +80,18 @@ impl Check for C13Positions {
                         _ => Expr::call("default", vec![Expr::key(0, "nosuch"), Expr::key(0, "asc")]),
                     };
                 }
+                if g.tape.chance(1, 10) {
+                    // expressions that read the input position (the same in every option)
+                    let idx = |n: &str| Expr::Lit(format!("&{}", n));
+                    e = match g.tape.below(6) {
+                        0 => idx("index"),
+                        1 => Expr::call("=", vec![Expr::call("%", vec![idx("index"), Expr::lit("2")]), Expr::lit("0")]),
+                        2 => Expr::call("stringify", vec![Expr::call("%", vec![idx("index-in-file"), Expr::lit("3")])]),
+                        3 => Expr::call("push", vec![Expr::lit("[]"), idx("index"), idx("started-at-line-number")]),
+                        4 => Expr::call("-", vec![idx("ended-at-line-number")]),
+                        _ => Expr::call("<", vec![idx("started-at-line-number"), Expr::lit("3")]),
+                    };
+                }
                 let kk = *g.tape.pick(LEAF_KINDS);
                 // input-independent: no paths (empty chain) and no parse_selection (its text may read the input)
                 g.cfg.exclude.push("parse_selection");
